@@ -4,7 +4,7 @@ from ..core import hx, lst, WILD
 from ..ref import P, L, to32, le
 
 REQUIRED = ['slice:len', 'array:random', 'array:corner', 'verify:random', 'verify:exceptional', 'batch:random', 'map:exceptional',
-            'ctx:len', 'x25519:exceptional', 'total-constructors', 'msm:expect', 'serde:shapes', 'pkcs8:der']
+            'ctx:len', 'x25519:exceptional', 'total-constructors', 'msm:expect', 'serde:shapes', 'pkcs8:der', 'serde:strings']
 
 SLICE_OPS = ['ed.fromslice', 'ed.tryfrom', 'rs.fromslice', 'rs.tryfrom', 'sig.sk_tryfrom', 'sig.vk_tryfrom', 'sig.sig_fromslice',
              'sig.esk']
@@ -64,6 +64,21 @@ def gen(ctx, n):
                 js = ('[' + ','.join(str(x) for x in raw) + ']').encode()
                 for fmt, pl in (('json', js), ('jsonvalue', js), ('seqhint', raw), ('bytes', raw)):
                     ctx.add('sd.de', ty, fmt, hx(pl), cls=['slice:len', 'serde:shapes'])
+    # strings offered to every deserialiser (a format may present a value as text): hex of the right and of wrong lengths,
+    # and strings whose UTF-8 length is 64 / 128 bytes with a multi-byte character at every offset
+    import json as _json
+    strs = ['', '00' * 32, 'ff' * 32, '00' * 64, 'zz' * 32, '0' * 63, '0' * 65]
+    for off in list(range(0, 63)) + [126]:
+        for ch in ('\u00e9', '\u20ac', '\U0001f600'):
+            n_ch = len(ch.encode())
+            for total in (64, 128):
+                if off + n_ch <= total:
+                    strs.append('0' * off + ch + '0' * (total - off - n_ch))
+    for ty in ('scalar', 'edwards', 'ristretto', 'cedwards', 'cristretto', 'montgomery', 'signingkey', 'verifyingkey', 'signature',
+               'xpublic', 'xstatic'):
+        for st in (strs if ty in ('scalar', 'edwards', 'cedwards') else rng.sample(strs, 40)):
+            js = _json.dumps(st, ensure_ascii=False).encode()
+            ctx.add('sd.de', ty, rng.choice(['json', 'jsonvalue']), hx(js), cls=['serde:shapes', 'serde:strings'])
     exc = exceptional_encodings()
     for e in exc:
         for op in ARRAY32_OPS:
@@ -179,6 +194,16 @@ def gen(ctx, n):
         ss = [x.hex() for x in sigs]
         ss[pos] = (badR + sigs[pos][32:]).hex()
         ctx.add('sig.batch', lst([hx(x) for x in msgs]), lst(ss), lst([pk0.hex()] * 100), cls='batch:random')
+    # malleable S (s + l, s + 2l, l itself, 2^253 - 1) inside otherwise honest batches of several sizes: refused or (legacy
+    # builds) accepted, never a panic
+    for nb in (1, 3, 100):
+        for sv in ('+l', '+2l', 'l', 'max253'):
+            ss = [x.hex() for x in sigs[:nb]]
+            s0 = le(sigs[0][32:])
+            v = {'+l': s0 + L, '+2l': s0 + 2 * L, 'l': L, 'max253': (1 << 253) - 1}[sv]
+            if v < 2**256:
+                ss[nb // 2] = (sigs[nb // 2][:32] + to32(v)).hex()
+                ctx.add('sig.batch', lst([hx(x) for x in msgs[:nb]]), lst(ss), lst([pk0.hex()] * nb), cls='batch:random')
     # PKCS#8 / SPKI documents (DER and PEM): valid ones, every truncation, single-byte corruptions, random bytes
     sd = vals.rb(rng, 32)
     pkb = ref.ed_public(sd)
@@ -254,7 +279,7 @@ def task(prop, seed, size, cfgbins):
 
 def run(prop, tier, seed, t0):
     from .. import plan
-    cfgs = plan.ALL_CFGS
+    cfgs = plan.ALL_CFGS + ['simd-legacy']
     bins, notes, failed = plan.bins_for(cfgs, ('rel', 'chk') if tier == 'quick' else ('rel', 'chk'))
     if failed:
         return plan.fail_build(prop, failed)
